@@ -208,6 +208,21 @@ def plans_part(ctx, cands, fresh, good, rng):
         jobs.append(("scripts:returned-mir-held-while-another-program-compiles", os.path.join(pd, "spec.json"), pd, None,
                      {"first.py (its MIR dict is kept)": STR_A, "second.py (compiled afterwards)": STR_SELF_CONTAINED}))
         jobs.append(("scripts-alone:returned-mir-held-while-another-program-compiles", os.path.join(pd, "spec_alone.json"), pd, None, {}))
+        # a program with written literals compiled after one whose literals were folded away (twelfth seeding round)
+        pd = os.path.join(d, "literals-after-a-program-with-folded-literals")
+        os.makedirs(pd, exist_ok=True)
+        FOLD_A = ("from nada_dsl import *\n\ndef nada_main():\n    p = Party(name='P0')\n    x = SecretInteger(Input(name='x', party=p))\n"
+                  "    y = x * (Integer(1) + Integer(2)) + Integer(10)\n    return [Output(y, 'o', p)]\n")
+        FOLD_B = ("from nada_dsl import *\n\ndef nada_main():\n    p = Party(name='P0')\n    x = SecretInteger(Input(name='x', party=p))\n"
+                  "    y = x * Integer(3) + Integer(10) - Integer(7)\n    z = y + (Integer(20) - Integer(5)) * Integer(2)\n    return [Output(z, 'o', p)]\n")
+        open(os.path.join(pd, "first.py"), "w").write(FOLD_A)
+        open(os.path.join(pd, "second.py"), "w").write(FOLD_B)
+        json.dump({"plan": [["trace", os.path.join(pd, "first.py"), "a"], ["compile", "a"], ["trace", os.path.join(pd, "second.py"), "b"], ["compile", "b"]],
+                   "report": "b"}, open(os.path.join(pd, "spec.json"), "w"))
+        json.dump({"plan": [["trace", os.path.join(pd, "second.py"), "b"], ["compile", "b"]], "report": "b"}, open(os.path.join(pd, "spec_alone.json"), "w"))
+        jobs.append(("scripts:literals-after-a-program-with-folded-literals", os.path.join(pd, "spec.json"), pd, None,
+                     {"first.py (literals folded)": FOLD_A, "second.py (compiled afterwards in the same process)": FOLD_B}))
+        jobs.append(("scripts-alone:literals-after-a-program-with-folded-literals", os.path.join(pd, "spec_alone.json"), pd, None, {}))
         # the program's directory is ALREADY on sys.path (PYTHONPATH): compiling one program of it must not take it away
         pd = os.path.join(d, "directory-already-on-the-path")
         os.makedirs(os.path.join(pd, "lib"), exist_ok=True)
@@ -354,7 +369,8 @@ def plans_part(ctx, cands, fresh, good, rng):
             "string-without-entry-point-after-one-with", "string-using-a-name-of-an-earlier-string", "string-after-another-string",
             "directory-already-on-the-path", "returned-mir-held-while-another-program-compiles",
             "file-rewritten-same-size-bytecode-cache-on", "shared-library-with-module-level-functions",
-            "helper-edited-between-two-compilations", "helper-directory-added-to-the-path-by-the-program")
+            "helper-edited-between-two-compilations", "helper-directory-added-to-the-path-by-the-program",
+            "literals-after-a-program-with-folded-literals")
     items = [f"({mirprint.g_ioutcome(sc['scripts:' + t][1])}, {mirprint.g_ioutcome(sc['scripts-alone:' + t][1])})" for t in tags]
     text = (progrun.HEAD + "From NadaV.Spec Require Import MirSpec Equiv.\n"
             "Definition cases : list (ioutcome * ioutcome) :=\n  [" + ";\n   ".join(items) + "].\n"
